@@ -37,6 +37,13 @@ def dense_bfgs(X, G):
 
 
 def matrix_facts(mats, X, G):
+    try:
+        return _matrix_facts(mats, X, G)
+    except Exception:  # noqa: BLE001 - NaN/inf in the real matrices: every fact fails
+        return {"compact": False, "spd": False, "secant": False, "theta": False}
+
+
+def _matrix_facts(mats, X, G):
     n = len(X[0])
     if len(X) < 2:
         return {"compact": True, "spd": True, "secant": True, "theta": True}
@@ -55,6 +62,14 @@ def matrix_facts(mats, X, G):
 
 def replay_record(rec):
     """Replay one emitted state of Memory.tla. Returns list of (clause, detail)."""
+    try:
+        return _replay_record(rec)
+    except Exception as ex:  # noqa: BLE001  - an exception of the routine under test is a verdict, not a harness failure
+        return [("C10_RoutineRaises", repr(ex)), ("C06_RoutineRaises", repr(ex)), ("C13_RoutineRaises", repr(ex)),
+                ("C18_RoutineRaises", repr(ex))]
+
+
+def _replay_record(rec):
     from scipy.optimize import LbfgsInvHessProduct, OptimizeResult
 
     from lbfgsb.bfgsmats import LBFGSB_MATRICES, make_X_and_G_respect_strong_wolfe, update_lbfgs_matrices
